@@ -1,3 +1,3 @@
 From Coq Require Import ExtrOcamlBasic.
 From JV Require Import Model.Stream.
-Extraction "stream_x.ml" Stream.stream_buffered Stream.render Stream.concat.
+Extraction "stream_x.ml" Stream.stream_buffered Stream.render Stream.concat Stream.srun Stream.sdrain.
